@@ -140,7 +140,7 @@ func freeze(p *Program, path string) {
 			label := strings.Join(fields[2:], " ")
 			a := p.FA(curFn)
 			var hits []*Guard
-			for _, g := range a.Guards() {
+			for _, g := range a.OwnGuards() {
 				pos := g.If.Cond.Pos()
 				if !pos.IsValid() {
 					pos = guardPos(g)
@@ -169,7 +169,7 @@ func freeze(p *Program, path string) {
 			sub, label := strings.TrimSpace(parts[0]), strings.TrimSpace(parts[1])
 			a := p.FA(curFn)
 			var hits []*Guard
-			for _, g := range a.Guards() {
+			for _, g := range a.OwnGuards() {
 				if strings.Contains(g.String(), sub) {
 					hits = append(hits, g)
 				}
